@@ -21,12 +21,15 @@ NVIOL=$(grep -c "^VIOLATION" /tmp/sev_check_$PROP$DI.log)
 FIRST=$(grep -A1 "^VIOLATION" /tmp/sev_check_$PROP$DI.log | sed -n 2p | cut -c1-300)
 git -C /repo worktree remove --force "$WT"
 echo "$PROP/$DI demo_clean_exit=$CLEAN demo_mut_exit=$MUT tests='$TESTS' check_exit=$CHK violations=$NVIOL first='$FIRST'"
-python3 - <<PY
-import json
-m=json.load(open('$DEST/meta_agent.json'))
-out=dict(property='$PROP', breaks=m.get('summary'), needs_to_manifest=m.get('needs_to_manifest'), files=m.get('files'),
-  confirmed=dict(demo_exit_on_clean_tree=$CLEAN, demo_exit_with_patch=$MUT, test_suite_with_patch='''$TESTS''',
-                 commands=['PYTHONPATH=<wt>/src /venv/bin/python demo.py (clean, then with patch)', 'PYTHONPATH=<wt>/src /venv/bin/python -m pytest -q -p no:cacheprovider --timeout=900']),
-  check=dict(cmd='AUREL_REPO=<wt> ./check $PROP --tier $TIER', exit=$CHK, violations=$NVIOL, first='''$FIRST'''))
-json.dump(out, open('$DEST/meta.json','w'), indent=1)
+export SE_PROP="$PROP" SE_TIER="$TIER" SE_CLEAN="$CLEAN" SE_MUT="$MUT" SE_TESTS="$TESTS" SE_CHK="$CHK" SE_NVIOL="$NVIOL" SE_FIRST="$FIRST" SE_DEST="$DEST"
+python3 - <<'PY'
+import json, os
+E = os.environ
+m = json.load(open(E['SE_DEST'] + '/meta_agent.json'))
+out = dict(property=E['SE_PROP'], breaks=m.get('summary'), needs_to_manifest=m.get('needs_to_manifest'), files=m.get('files'),
+           confirmed=dict(demo_exit_on_clean_tree=int(E['SE_CLEAN']), demo_exit_with_patch=int(E['SE_MUT']), test_suite_with_patch=E['SE_TESTS'],
+                          commands=['PYTHONPATH=<wt>/src /venv/bin/python demo.py (clean, then with patch)',
+                                    'PYTHONPATH=<wt>/src /venv/bin/python -m pytest -q -p no:cacheprovider --timeout=900']),
+           check=dict(cmd=f"AUREL_REPO=<wt> ./check {E['SE_PROP']} --tier {E['SE_TIER']}", exit=int(E['SE_CHK']), violations=int(E['SE_NVIOL']), first=E['SE_FIRST']))
+json.dump(out, open(E['SE_DEST'] + '/meta.json', 'w'), indent=1)
 PY
